@@ -490,6 +490,31 @@ func triviaRule(c *core.Check, r *core.Rule, only ...string) {
 						for _, cl := range y.Body.List {
 							clauses = append(clauses, cl.(*ast.CaseClause))
 						}
+					case *ast.IfStmt:
+						// `if _, isSpace := token.(Whitespace); !isSpace`: the assertion form of the same test
+						asserts := func(n ast.Node, typ string) bool {
+							found := false
+							if n == nil {
+								return false
+							}
+							ast.Inspect(n, func(z ast.Node) bool {
+								if ta, ok := z.(*ast.TypeAssertExpr); ok && ta.Type != nil && mentions(ta.Type, typ) {
+									found = true
+								}
+								return true
+							})
+							return found
+						}
+						var init ast.Node
+						if y.Init != nil {
+							init = y.Init
+						}
+						if asserts(init, "Whitespace") || asserts(y.Cond, "Whitespace") {
+							n++
+							key := fmt.Sprintf("%s.%s | if on an assertion to Whitespace", pkg, fd.Name.Name)
+							r.Cond(asserts(init, "Comment") || asserts(y.Cond, "Comment"), key, p.Pos(y.Pos()), "the condition also asserts the comment type", "the condition steps over white-space tokens (type assertion) but not over comments: a comment at that place changes the parse")
+						}
+						return true
 					case *ast.BinaryExpr:
 						// a maximal && / || chain comparing with the white-space kind
 						if (y.Op == token.EQL || y.Op == token.NEQ) && mentions(y, "KWhitespace") {
